@@ -145,6 +145,31 @@ func TestC19(t *testing.T) {
 		}
 	}
 	ev.Class("seeds", int64(len(all)*3))
+	// large headers: metadata that completes only after 64 KiB / 1 MiB / 2 MiB / 4 MiB (16, 64 MiB in thorough)
+	ths := []int{1 << 16, 1 << 20, 2 << 20, 4 << 20}
+	if ev.Thorough() {
+		ths = append(ths, 16<<20, 64<<20)
+	}
+	for _, format := range []string{"PNG", "JPEG", "WebP"} {
+		for _, th := range ths {
+			for _, d := range []int{-300, 300} {
+				f := gen.LargeHeader(format, th+d)
+				c := Case{Desc: f.Desc, Data: f.Data}
+				ev.Eval(1)
+				k, w, _ := check(c)
+				ev.NT(ev.Hash("large", format, th, d))
+				if k != "" && !bad[k] {
+					bad[k] = true
+					c.Data = nil // the replay rebuilds it from Desc-less parameters: keep the file out of the JSON if huge
+					if len(f.Data) <= 8<<20 {
+						c.Data = f.Data
+					}
+					ev.Violation("auto", k, w, c)
+				}
+			}
+		}
+	}
+	ev.Class("large-header", int64(3*len(ths)*2))
 	otherEnds := mut.Ends(all[4].Map, len(all[4].Data))
 	ev.RapidChecks(ev.Pick(5000, 200000))
 	ev.RapidSeed(19)
